@@ -87,6 +87,42 @@ add("C26", "mutation fuzzing of the viewer CLI in-process with drawn display opt
     "Exploration: ~8k (quick) / ~770k (thorough) byte strings x option sets; exit status must be in {0,2,3,4}, never 255 or an escaping exception.",
     "Size guard trips on transform_data/fragment_data of the (de)serialiser.")
 
+add("C15", "generated video formats near every base format x all alternative header encodings; validator decode equality",
+    "Exploration: formats perturbed from each base video format (and real levels built from the level table) x up to 40 headers from "
+    "iter_sequence_headers each; every header must be accepted under the level and decode to the configured parameters.",
+    "Real-level configurations are constructed from the level table; levels 64/65 conflict is a listed known finding.", ready=False)
+add("C16", "generated synthetic level tables + ordering patterns substituted in-process; encoder-or-error vs validator",
+    "Exploration: synthetic single-column level tables restricting encoder-owned choices and encoder-checked keys with ordering patterns; "
+    "make_sequence either raises UnsatisfiableCodecFeaturesError or the stream validates under the same tables.",
+    "Caller-owned unchecked keys are explored in a diagnostic stratum only (documented contract).", ready=False)
+add("C17", "stateful model-based testing (ValueSet op sequences) + generated tables/CSV vs set models",
+    "Exploration: rule-based machines over value sets vs Python sets; random tables vs a brute-force allowed-combination model; CSV text rendered from a table model and read back.",
+    "No inverted ranges / negative CSV numbers (outside documented format); tables without catch-all columns for the equivalences.", ready=False)
+add("C18", "exhaustive pattern-AST x sequence box + generated larger patterns vs Python re reference with brute-force viability",
+    "Exploration: every pattern AST up to a bounded size over a small alphabet x every short sequence (exhaustive box), larger generated patterns, and the real level/test-case patterns over all data-unit names: match_symbol, is_complete and valid_next_symbols against the reference.",
+    "Reference = Python re over one character per symbol; '$' only where nothing mandatory follows.", ready=False)
+add("C19", "generated required-lists x pattern sets vs brute-force reference search (soundness, completeness, minimality)",
+    "Exploration: required lists x 1-2 generated patterns x depth limits, plus real level/test-case pattern combinations; result must be a sound supersequence of minimal length, impossibility only when the reference finds none. D4 (greedy cut) is a listed known finding with a semantic signature.",
+    "Reference enumerates supersequences up to a bound; known-finding signature defined over the greedy-constrained solution space.", ready=False)
+add("C20", "stateful model-based testing of writer/reader op sequences + exhaustive bit strings vs a bit-list model",
+    "Exploration: ~25k op-sequence machines (writer primitives incl. out-of-range values, bounded blocks, seeks) read back by both readers, exhaustive 0-2 byte files x block lengths x read programs on both readers, exp-Golomb length functions to 2^300.",
+    "Reader agreement inside blocks only for lengths >= 0; writer seek only in its caller's pattern.")
+add("C21", "generated serdes programs interpreted by a reference interpreter (round trip, missing/unused, reuse)",
+    "Exploration: ~20k (quick) / 800k (thorough) random description programs (primitives, lists, typed subcontexts, bounded blocks, alignment, computed values, data-dependent control flow) with the three oracle parts of DESIGN C21.",
+    "byte_align only outside blocks; blocks not nested.")
+add("C22", "generated regular video formats x every picture generator; validity predicate",
+    "Exploration: regular formats over sizes, subsampling, scan/coding modes, signal ranges, colour specs x all synthetic generators: count, numbering, exact sizes, int samples in range.",
+    "Regular formats only (property's own domain).", ready=False)
+add("C23", "generated pictures/metadata: file round trip + comparison tool vs own difference count",
+    "Exploration: formats with depths 1-64, extremes, picture numbers to 2^32-1; write/read identity, file size, and picture-compare exit codes/counts vs the harness' own.",
+    "Scripts driven through main() in-process.", ready=False)
+add("C27", "stateful model-based testing of every fixeddict type vs a model dict; pickle/deepcopy round trips",
+    "Exploration: rule-based machines over all library fixeddict types with declared and undeclared keys (construction, item assignment, setdefault, update, |=, copy, del/pop/clear, pickle protocols 0-5).",
+    "Two-argument setdefault only.", ready=False)
+add("C28", "grammar/mutation-based CSV generation vs documented-domain predicate",
+    "Exploration: cell/row/column mutations of the sample CSVs and random CSV through the CLI's file mode: result in documented domain or InvalidCodecFeaturesError, nothing else.",
+    "Text handed over through a file opened as the CLI does.", ready=False)
+
 ALL = ["C%02d" % i for i in range(1, 29)]
 
 
